@@ -170,13 +170,6 @@ impl Agg {
         Ok(make_certificate(CertKind::V2, epoch, beacon, offset, &parts, None))
     }
 
-    /// what the artifact builders do once the certificate exists
-    pub async fn artifact_created(&self, beacon: u64) -> StdResult<()> {
-        self.legacy_prover.compute_cache(BlockNumber(beacon)).await?;
-        self.prover.compute_cache(BlockNumber(beacon)).await?;
-        Ok(())
-    }
-
     // --- mirrors of the HTTP handlers -----------------------------------------------------------
 
     /// proof_routes.rs::handlers::build_response_message + ToCardanoTransactionsProofsMessageAdapter
